@@ -77,8 +77,17 @@ def build(prop_files, timeout=1500, clean=False, jobs=16):
     """make -k the property files.  Returns dict(obligations, discharged, failed, axioms, log, wall)"""
     t0 = time.time()
     if clean:
-        subprocess.run(["make", "-C", COQ, "clean"], stdout=subprocess.DEVNULL, stderr=subprocess.DEVNULL)
-    if not os.path.exists(os.path.join(COQ, "Makefile")) or clean:
+        # remove the compiled files of the closure of these property files only, then rebuild them from source
+        files = set()
+        for pf in prop_files:
+            files |= deps_of(os.path.join(COQ, "props", pf + ".v"))
+        for f in files:
+            for ext in (".vo", ".vok", ".vos", ".glob"):
+                try:
+                    os.remove(f[:-2] + ext)
+                except OSError:
+                    pass
+    if not os.path.exists(os.path.join(COQ, "Makefile")):
         subprocess.run(["coq_makefile", "-f", "_CoqProject", "-o", "Makefile"], cwd=COQ, stdout=subprocess.DEVNULL, stderr=subprocess.DEVNULL)
     targets = []
     for pf in prop_files:
